@@ -188,6 +188,9 @@ func standardRun(t *testing.T, seed uint64, p *Plan, out *Outcome, h runHooks) *
 		nc = 1
 	}
 	var setupErr error
+	tickW := s.Cfg.W.Tick
+	s.Cfg.W.Tick = 0.02 // connection setup is not what the scenarios starve
+	defer func() { s.Cfg.W.Tick = tickW }()
 	rr := e.background("setup", func(ctx context.Context) {
 		for i := 0; i < nc; i++ {
 			cl, err := NewClient(e.clientOption())
@@ -204,6 +207,7 @@ func standardRun(t *testing.T, seed uint64, p *Plan, out *Outcome, h runHooks) *
 		e.finish()
 		return e
 	}
+	s.Cfg.W.Tick = tickW
 	if h.afterSetup != nil {
 		h.afterSetup(e)
 	}
